@@ -10,7 +10,8 @@
 //!   rx ... same ... a <a*3>
 //! kinds: 0 set width/height, 1 set hidden, 2 set style, 3 delete style.
 //! Observation: per step `ok` (rows: also per step whether the step creates the record), the
-//! descriptor vector, and per observed column: shown width, actual width, hidden, style+1 (all -1 when the getter refuses).
+//! descriptor vector, and per observed column: shown width, actual width, hidden, style+1 (all -1 when the getter refuses), and the
+//! style index an empty cell of that column reads (Model::get_cell_style_index, row 900000).
 use ironcalc_base::types::{Col, Row, Style};
 use ironcalc_base::{Model, COLUMN_WIDTH_FACTOR, ROW_HEIGHT_FACTOR};
 use serde_json::json;
@@ -62,8 +63,8 @@ impl H {
         };
         r.is_ok()
     }
-    /// (shown, actual, hidden, style+1); -1 when the getter refuses
-    fn col_obs(&self, j: i32) -> [i64; 4] {
+    /// (shown, actual, hidden, style+1, style an empty cell of the column reads); -1 when the getter refuses
+    fn col_obs(&self, j: i32) -> [i64; 5] {
         let ws = &self.m.workbook.worksheets[0];
         let shown = self.m.get_column_width(0, j).map(zi).unwrap_or(-1);
         let actual = ws.get_actual_column_width(j).map(zi).unwrap_or(-1);
@@ -77,7 +78,9 @@ impl H {
             (_, Err(_)) => -1,
             (Err(_), Ok(_)) => -8,
         };
-        [shown, actual, hidden, style]
+        // the cell-level reading of the column style (no validity gate in get_cell_style_index)
+        let eff = self.m.get_cell_style_index(0, 900_000, j).map(|x| x as i64).unwrap_or(-1);
+        [shown, actual, hidden, style, eff]
     }
     fn cols_ints(&self, out: &mut Vec<i64>) {
         let cs = self.cols();
@@ -162,7 +165,7 @@ struct Ctx { cs: Cases, or: Oracle, nodes: u64, frame_checks: u64, defect_steps:
 const KIND_NAME: [&str; 4] = ["set_size", "set_hidden", "set_style", "delete_style"];
 
 /// the frame property on the implementation for one step on columns
-fn oracle_cols(h: &H, ctx: &mut Ctx, layout: &[Col], prefix: &[Op], o: Op, before: &[(i32, [i64; 4])], ok: bool, wf: bool) {
+fn oracle_cols(h: &H, ctx: &mut Ctx, layout: &[Col], prefix: &[Op], o: Op, before: &[(i32, [i64; 5])], ok: bool, wf: bool) {
     if !wf { return; }
     for (j, b) in before {
         let a = h.col_obs(*j);
@@ -187,6 +190,9 @@ fn oracle_cols(h: &H, ctx: &mut Ctx, layout: &[Col], prefix: &[Op], o: Op, befor
                     format!("{} of column {} is {} after the step, expected {} (before: {})", names[t], j, a[t], e[t], b[t]));
             }
         }
+        if a[3] >= 0 && a[4] != (a[3] - 1).max(0) {
+            ctx.or.fail("frame:col:cell_level_style", json!({"layout": col_layout_str(layout), "ops_before": ops_str(prefix), "op": [KIND_NAME[o.kind as usize], o.j, o.v], "column": j}), format!("an empty cell of column {} reads style {} but get_column_style reads {}", j, a[4], a[3] - 1));
+        }
         if a[2] >= 0 && a[0] != (if a[2] == 1 { 0 } else { a[1] }) {
             ctx.or.fail("getter:get_column_width", json!({"layout": col_layout_str(layout), "ops": ops_str(prefix), "column": j}), format!("get_column_width = {} but hidden = {} and actual width = {}", a[0], a[2], a[1]));
         }
@@ -204,7 +210,7 @@ fn col_step(h: &mut H, ctx: Option<&mut Ctx>, layout: &[Col], prefix: &[Op], o: 
     match ctx {
         None => h.apply_col(o) as i64,
         Some(c) => {
-            let before: Vec<(i32, [i64; 4])> = obs.iter().map(|&j| (j, h.col_obs(j))).collect();
+            let before: Vec<(i32, [i64; 5])> = obs.iter().map(|&j| (j, h.col_obs(j))).collect();
             let wf = is_wf(h.cols());
             let ok = h.apply_col(o);
             oracle_cols(h, c, layout, prefix, o, &before, ok, wf);
